@@ -387,6 +387,9 @@ def run(ctx):
 
         # ---------------- directors and nematic order
         groups = [[a.index for a in r.atoms] for r in top.residues if r.n_atoms >= 4][:6]
+        if rng.random() < 0.5:                               # a group is a set of atoms: list it in any order
+            groups = [rng.sample(g, len(g)) for g in groups]
+            ctx.count("nematic: groups listed in shuffled order")
         if len(groups) >= 2:
             try:
                 dirs = md.compute_directors(t, indices=groups)
